@@ -604,3 +604,99 @@ func ruleRef3(c *Ctx) []*Ob {
 	}
 	return o.list
 }
+
+func init() {
+	register(&Rule{
+		ID: "GAUGE-1",
+		Doc: "Every segment counts: in segmentStack.Stats the loop over ss.a adds to the statistics in every iteration (each accumulating store lies in a block that dominates every back edge of the " +
+			"loop - no conditional skip), and CurSegments is len(ss.a) or is incremented in the same unconditional way. The dirty gauges, and with them 'zero means persisted' and the merger's " +
+			"and persister's wake-up predicates, are sums of these numbers; a segment that is skipped (say, because it has no operations of its own) is work the gauges deny.",
+		Props: []string{"C20", "C16"},
+		Floor: 2,
+		Run:   ruleGauge1,
+	})
+}
+
+func ruleGauge1(c *Ctx) []*Ob {
+	o := newObs(c, "GAUGE-1")
+	f := c.Fn("(*segmentStack).Stats")
+	fn := c.fname(f)
+	fA := c.Field("segmentStack", "a")
+	fSegs := c.Field("SegmentStackStats", "CurSegments")
+	stat := map[*types.Var]bool{fSegs: true, c.Field("SegmentStackStats", "CurOps"): true, c.Field("SegmentStackStats", "CurBytes"): true}
+	// the loop over ss.a
+	var scc map[*ssa.BasicBlock]bool
+	var header *ssa.BasicBlock
+	eachInstr(f, func(i ssa.Instruction) {
+		if scc != nil {
+			return
+		}
+		ia, ok := i.(*ssa.IndexAddr)
+		if !ok {
+			return
+		}
+		if fv, _ := loadedField(ia.X); fv == fA {
+			scc = sccOf(f, ia.Block())
+		}
+	})
+	if scc == nil {
+		o.add(fn, "loop over ss.a", c.pos(f.Pos()), false, "anchor lost: Stats no longer walks the stack's segments")
+		return o.list
+	}
+	// latches: blocks inside the loop with an edge to a loop block that dominates them (the header)
+	var latches []*ssa.BasicBlock
+	for b := range scc {
+		for _, s := range b.Succs {
+			if scc[s] && s.Dominates(b) {
+				latches = append(latches, b)
+				header = s
+			}
+		}
+	}
+	_ = header
+	segsOK, segsHow := false, ""
+	for _, a := range fieldAccesses(f, func(v *types.Var) bool { return stat[v] }) {
+		if a.Kind != "store" {
+			continue
+		}
+		if !scc[a.Instr.Block()] {
+			if a.Field == fSegs {
+				// CurSegments: uint64(len(ss.a))
+				for _, og := range origins(a.Val) {
+					v := og
+					if cv, isCv := v.(*ssa.Convert); isCv {
+						v = cv.X
+					}
+					if call, isC := v.(*ssa.Call); isC {
+						if b, isB := call.Call.Value.(*ssa.Builtin); isB && b.Name() == "len" && len(call.Call.Args) == 1 {
+							if fv, _ := loadedField(call.Call.Args[0]); fv == fA {
+								segsOK, segsHow = true, "CurSegments = len(ss.a)"
+							}
+						}
+					}
+				}
+			}
+			continue
+		}
+		every := true
+		for _, l := range latches {
+			if !a.Instr.Block().Dominates(l) {
+				every = false
+			}
+		}
+		if a.Field == fSegs && every {
+			segsOK, segsHow = true, "CurSegments is incremented in every iteration"
+		}
+		why := "added in every iteration of the loop over ss.a"
+		if !every {
+			why = "this addition is skipped for some segments (a conditional `continue` in the loop over ss.a): the gauges under-report the dirty work - zero no longer means 'everything is in the lower level', and wake-up / back-pressure predicates ignore those segments"
+		}
+		o.add(fn, "accumulate "+a.Field.Name(), c.instrPos(a.Instr), every, why)
+	}
+	why := segsHow
+	if !segsOK {
+		why = "CurSegments is neither len(ss.a) nor incremented in every iteration: segments are missing from the CurDirtySegments gauges"
+	}
+	o.add(fn, "CurSegments covers every segment", c.pos(f.Pos()), segsOK, why)
+	return o.list
+}
